@@ -50,8 +50,9 @@ def transfer(src: Rec, dst: Rec, own: tuple[str, ...]):
 
 class GenCheck:
     def __init__(self, pid: str, own: tuple[str, ...], opts: dict, scheds=("eager",), nontrivial_counter: str = "", quick=(96, 150), thorough=(6000, 300),
-                 mode: str = "simulate"):
+                 mode: str = "simulate", library: bool = False):
         self.pid, self.own, self.opts, self.scheds, self.ntc, self.mode = pid, own, opts, scheds, nontrivial_counter, mode
+        self.library = library
         self.tiers = {"quick": quick, "thorough": thorough}
 
     def shards(self, tier, seed):
@@ -59,9 +60,55 @@ class GenCheck:
         per = 3 if tier == "quick" else 25
         if self.mode == "c11":
             per = 12 if tier == "quick" else 150
-        return [{"seed": seed, "first": i, "n": min(per, n - i), "cycles": cycles} for i in range(0, n, per)]
+        out = [{"seed": seed, "first": i, "n": min(per, n - i), "cycles": cycles} for i in range(0, n, per)]
+        if self.library:
+            nlib = 16 if tier == "quick" else 160
+            out += [{"seed": seed, "lib": True, "first": i * 3, "n": 3, "cycles": 250 if tier == "quick" else 600} for i in range(nlib)]
+        return out
+
+    def run_library_shard(self, spec, rec: Rec):
+        """Realistic second workload: library components driven by the hostile component driver with the transaction sanitizer attached."""
+        import importlib
+        from ..comp.driver import run_history
+        from .. import txsan
+        mods = ["c14", "c15", "c16", "c17", "c20", "c21", "c22", "c24", "c25", "c26", "c27", "c31", "c18", "c28", "c19", "c28", "c18"]
+        for i in range(spec["first"], spec["first"] + spec["n"]):
+            name = mods[i % len(mods)]
+            if name in ("c18", "c28", "c19"):
+                mod = importlib.import_module(f"vf.checks.{name}")
+                rnd = random.Random(f"{self.pid}:lib:{spec['seed']}:{i}")
+                sub, san = Rec(self.pid, rec.shard), Rec(self.pid, rec.shard)
+                txsan.CURRENT = san
+                try:
+                    if name == "c18":
+                        kind = list(mod.KINDS)[i % len(mod.KINDS)]
+                        mod.run_history(sub, kind, rnd, spec["cycles"], {"transformer": kind, "library_history": i})
+                    elif name == "c28":
+                        mod.run_pipeline(sub, rnd, spec["cycles"], i, clear_p=rnd.choice([0.0, 0.03]))
+                    else:
+                        mod.run_serializer(sub, rnd, spec["cycles"], {"component": "Serializer", "ports": 1 + i % 4, "depth": 1 + i % 5, "library_history": i})
+                finally:
+                    txsan.CURRENT = None
+                if sub.viol_total:
+                    rec.count("foreign_alarm:component_model:" + name.upper())
+                transfer(san, rec, self.own)
+                rec.count("library_histories")
+                continue
+            mod = importlib.import_module(f"vf.checks.{name}")
+            rnd = random.Random(f"{self.pid}:lib:{spec['seed']}:{i}")
+            picked = mod.pick(rnd, i)
+            case, make = picked[0], picked[1]
+            case = dict(case, library_history=i)
+            sub, san = Rec(self.pid, rec.shard), Rec(self.pid, rec.shard)
+            run_history(sub, make, rnd, spec["cycles"], case, drain=0, san_rec=san)
+            if sub.viol_total:
+                rec.count("foreign_alarm:component_model:" + name.upper())
+            transfer(san, rec, self.own)
+            rec.count("library_histories")
 
     def run_shard(self, spec, rec: Rec):
+        if spec.get("lib"):
+            return self.run_library_shard(spec, rec)
         for i in range(spec["first"], spec["first"] + spec["n"]):
             rnd = random.Random(f"{self.pid}:{spec['seed']}:{i}")
             D = core.gen(rnd, self.opts)
